@@ -492,7 +492,7 @@ pub fn record_offsets(output: &str) {
         //  transforms the identity here, so the bodies stay where the scene put them)
         let stacked: std::sync::Arc<dyn Kinematics> = std::sync::Arc::new(rs_opw_kinematics::tool::Tool {
             robot: std::sync::Arc::new(rs_opw_kinematics::tool::Base { robot: kin_arc.clone(), base: Isometry3::identity() }), tool: Isometry3::identity() });
-        let kws = rs_opw_kinematics::kinematics_with_shape::KinematicsWithShape { kinematics: stacked, body };
+        let kws = crate::shape::kws_from(stacked, body);
         let body = &kws.body;
         let through_shape = tries % 2 == 0;
         // precondition of the property: the initial vector is collision free (full check, brute force as well)
